@@ -820,10 +820,14 @@ class Representation:
 
         if dtype is None:
             dtype = self.dtype
-            if np.issubdtype(np.dtype(dtype), np.integer):
-                # the adjoint action involves the inverse matrices, which
-                # are stored as floats even for integer generators
-                dtype = np.dtype('float64')
+            if len(self.generators) > 0:
+                # the adjoint action involves every generator and its
+                # inverse; self.dtype is only the dtype of the generator
+                # assigned last (and inverses of integer matrices are
+                # stored as floats), so use a dtype that holds them all
+                dtype = np.result_type(
+                    *[np.asarray(M).dtype for M in self.generators.values()]
+                )
 
         gln_adjoint = lie.hom.gln_adjoint(
             base_ring=base_ring, dtype=dtype
@@ -838,10 +842,14 @@ class Representation:
 
         if dtype is None:
             dtype = self.dtype
-            if np.issubdtype(np.dtype(dtype), np.integer):
-                # the adjoint action involves the inverse matrices, which
-                # are stored as floats even for integer generators
-                dtype = np.dtype('float64')
+            if len(self.generators) > 0:
+                # the adjoint action involves every generator and its
+                # inverse; self.dtype is only the dtype of the generator
+                # assigned last (and inverses of integer matrices are
+                # stored as floats), so use a dtype that holds them all
+                dtype = np.result_type(
+                    *[np.asarray(M).dtype for M in self.generators.values()]
+                )
 
         sln_adjoint = lie.hom.sln_adjoint(
             base_ring=base_ring, dtype=dtype
